@@ -1,9 +1,61 @@
 import Rare.Drv.Expr
+import Rare.Model.C10
 namespace Rare.Drv.C10
+open Rare Rare.Expr Rare.C10 Rare.Proto Rare.Drv.Expr
+
+/--
+* `expr …` – the shared op;
+* `optdiff <template> <elems> <keys>` – value with optimisation on (the Go side also evaluates without
+  and answers `DIFF …` when the two disagree);
+* `funcs <opt> <file text> <template> <elems> <keys>` – evaluate a template against builtins + a
+  definitions file;
+* `inline <file text> <call template> <inlined template> <elems> <keys>` – the call's value (the Go side
+  also evaluates the hand-inlined body and answers `DIFF …` on disagreement);
+* `par <w> <template> <elems> <keys>` – value (the Go side evaluates from `w` goroutines).
+-/
+def evalFuncs (opt : Bool) (file tmpl : Bytes) (elems keys : List Bytes) : String :=
+  match loadDefs registry (parseDefs file) with
+  | .error m => panicAns m
+  | .ok (_, fs) =>
+    match decodeTemplate tmpl with
+    | some tc => evalWith (withFuncs registry fs) opt tc (mkCtx elems keys)
+    | none => "bad-args"
 
 def handle (args : List String) : String :=
-  match Rare.Drv.Expr.handle args with
-  | some a => a
-  | none => "bad-op"
+  match args with
+  | ["optdiff", t, el, ks] =>
+    match Rare.Drv.Expr.handle ["expr", "1", t, el, ks] with
+    | some a => a
+    | none => "bad-args"
+  | ["par", _, t, el, ks] =>
+    match Rare.Drv.Expr.handle ["expr", "1", t, el, ks] with
+    | some a => a
+    | none => "bad-args"
+  | ["funcs", o, f, t, el, ks] =>
+    match Hex.dec f, Hex.dec t, decHexList el, decHexList ks with
+    | some file, some tmpl, some elems, some keys => evalFuncs (o == "1") file tmpl elems keys
+    | _, _, _, _ => "bad-args"
+  | ["inline", f, t, _, el, ks] =>
+    match Hex.dec f, Hex.dec t, decHexList el, decHexList ks with
+    | some file, some tmpl, some elems, some keys => evalFuncs true file tmpl elems keys
+    | _, _, _, _ => "bad-args"
+  | ["live", t] =>
+    match Hex.dec t with
+    | some tb =>
+      match decodeTemplate tb with
+      | some tc =>
+        match compile registry true tc with
+        | .error m => panicAns m
+        | .ok (stages, _) =>
+          match buildKey stages with
+          | .ret _ => "ok touched=0"
+          | .panic m => panicAns m
+          | _ => "ok touched=1"
+      | none => "bad-args"
+    | none => "bad-args"
+  | _ =>
+    match Rare.Drv.Expr.handle args with
+    | some a => a
+    | none => "bad-op"
 
 end Rare.Drv.C10
